@@ -1223,7 +1223,6 @@ class LogixDriver(CIPDriver):
                     parsed_tag["write_value"],
                 )
                 request.build_message()
-                request._msg_setup = False
 
                 req_size = len(parsed_tag["write_value"]) + len(request.message)
                 if req_size > self.connection_size:
